@@ -5,6 +5,8 @@
 (B) flat exhaustive: hand-built one-element streams with ALL attribute values <= 3 over a 13-letter value
     alphabet (and all texts <= 3 in normal / RCDATA / raw-text / foreign contexts) x the FULL cross product of
     serializer options (1296 combinations, optional-tag omission off).
+(C) flat exhaustive: hand-built DOCTYPE tokens with every public x system identifier of length <= 2 (3) over
+    {a, ", ', >, space} (and absent).
 Oracle: serializer.errors non-empty (and strict=True raises SerializeError), or ref/retokenize.py reading
 the output in place yields exactly the tags, attribute (qualified name, value) sets, text, comments and
 doctype of the stream.  noscript is read with scripting off AND on; a divergence under either counts.
@@ -269,6 +271,44 @@ def _b_shard(args):
     return res
 
 
+# ---- (C) hand-built DOCTYPE tokens: every public / system identifier up to a length bound ----------------
+
+DV = ["a", '"', "'", ">", " "]
+
+
+def doctype_ids(L):
+    out = [None]
+    for m in range(0, L + 1):
+        for w in itertools.product(DV, repeat=m):
+            out.append("".join(w))
+    return out
+
+
+def _c_shard(args):
+    pub, L = args
+    res = {"evals": 0, "viol": {}, "streams": 0, "reported": 0}
+    for sysid in doctype_ids(L):
+        st = [{"type": "Doctype", "name": "html", "publicId": pub, "systemId": sysid},
+              {"type": "StartTag", "name": "p", "namespace": HTML_NS, "data": OrderedDict()},
+              {"type": "EndTag", "name": "p", "namespace": HTML_NS}]
+        res["streams"] += 1
+        for opts in ({"omit_optional_tags": False}, {"omit_optional_tags": False, "_encoding": "ascii", "quote_char": "'"}):
+            res["evals"] += 1
+            j = judge_stream(st, opts)
+            try:
+                if serialize(st, opts)[1]:
+                    res["reported"] += 1
+            except Exception:
+                pass
+            if j is not None:
+                # name the class by which identifier carries which troublesome character
+                cls = "doctype:" + j[1]
+                size = len(pub or "") + len(sysid or "")
+                if cls not in res["viol"] or size < res["viol"][cls][0]:
+                    res["viol"][cls] = (size, st, opts, j)
+    return res
+
+
 def stream_json(st):
     return c11.jsonable_stream(st)
 
@@ -303,7 +343,7 @@ def replay(harness, config, case):
 
 def run(run):
     quick = run.tier == "quick"
-    only = os.environ.get("VERIF_PARTS", "A,B").split(",")
+    only = os.environ.get("VERIF_PARTS", "A,B,C").split(",")
     classes = {}
     if "A" in only:
         depth = {"T1": 3, "T2": 3, "T3": 3, "T4": 3, "T5": 3, "T6": 3, "T7": 3, "TA": 4, "TT": 3} if quick else \
@@ -339,6 +379,16 @@ def run(run):
                 if cls not in classes or True:
                     classes.setdefault(cls, engine.Violation(H, {"kind": "stream", "what": name, "opts": opts}, stream_json(st), j[2], j[3], j[0], cls))
         run.set("option_combinations", 1296)
+    if "C" in only:
+        L = 2 if quick else 3
+        for r in engine.pmap(_c_shard, [(pub, L) for pub in doctype_ids(L)], chunksize=1):
+            run.add("doctype_serializations", r["evals"])
+            run.add("doctype_streams", r["streams"])
+            run.add("doctype_serializations_with_reported_error", r["reported"])
+            for cls, (size, st, opts, j) in r["viol"].items():
+                if cls not in classes or size < classes[cls]._size:
+                    classes[cls] = engine.Violation(H, {"kind": "stream", "what": "doctype", "opts": opts}, stream_json(st), j[2], j[3], j[0], cls)
+                    classes[cls]._size = size
     for v in classes.values():
         run.violation(v)
     if "states" not in run.cov:
